@@ -76,6 +76,15 @@ Stable(R, f) == /\ Proper(R, f)
                 /\ \A r \in R : \A l \in 0..(f[r] - 1) : \E s \in R : CrossR(r, s) /\ f[s] = l
 StableSet(C)  == { f \in [C -> 0..MaxDeg(C)] : Stable(C, f) }
 
+\* A necessary condition of optimality that needs no enumeration: inside a conflict component the stems of two
+\* levels may trade places (the assignment stays proper, nothing else is affected), so in an optimum no such
+\* trade gains anything - the levels of a component are ordered by the total length they carry (lemma L7,
+\* model-checked in MC_SecStruct: every optimal assignment has the property).
+SwapLevels(f, C, a, b) == [r \in DOMAIN f |-> IF r \in C /\ f[r] = a THEN b ELSE IF r \in C /\ f[r] = b THEN a ELSE f[r]]
+NoSwapImproves(R, f) ==
+  \A C \in KnotComponents(R) : \A a, b \in { f[r] : r \in C } :
+     a < b => Obj(R, SwapLevels(f, C, a, b)) <= Obj(R, f)
+
 \* ---- first come, first served ---------------------------------------------
 \* regions in 5'->3' order of their first nucleotide
 RECURSIVE SortRegions(_)
